@@ -31,9 +31,13 @@ class StubCommand(object):
 def mk_array(spec, shape):
     dt = {"int": numpy.int64, "float": numpy.float64}[spec["dtype"]]
     data = numpy.array(spec["data"], dtype=dt).reshape(shape)
+    if spec.get("layout") == "F" and len(shape) >= 2:
+        data = numpy.asfortranarray(data)  # same cells, column-major memory (not C-contiguous): what a transposed view or a NetCDF slice looks like
     if spec.get("kind", "MA") == "ND":
         return data
     mask = numpy.array(spec["mask"], dtype=bool).reshape(shape)
+    if spec.get("layout") == "F" and len(shape) >= 2:
+        mask = numpy.asfortranarray(mask)
     if spec.get("nomask") and not mask.any():
         return numpy.ma.array(data)
     return numpy.ma.array(data, mask=mask)
@@ -76,7 +80,7 @@ def run_case(case):
     originals = {}
     for name, spec in case["inputs"].items():
         if spec["kind"] == "single":
-            arr = mk_array(spec, shape)
+            arr = mk_array(spec, tuple(spec.get("shape", shape)))
             st = StubCommand(spec.get("name", name), arr, spec.get("fuzzy", False))
             kwargs[name] = st
             stubs[name] = [st]
@@ -151,6 +155,26 @@ def run_case(case):
         import shutil
 
         shutil.rmtree(tmpd, ignore_errors=True)
+    if case.get("reorder") and out.get("outcome") == "return":
+        # C06 / C07: the same command over the *same* input objects listed in another order (weights moved along with their layers)
+        perm = case["reorder"]
+        kw2 = dict(kwargs)
+        for name, v in kwargs.items():
+            if isinstance(v, list) and len(v) == len(perm) and (name in stubs or name == "Weights"):
+                kw2[name] = [v[j] for j in perm]
+        rec = {}
+        with warnings.catch_warnings():
+            warnings.simplefilter("ignore")
+            try:
+                r2 = cls("r2", [], program=None, lineno=case.get("lineno", 7)).execute(**kw2)
+                rec["outcome"] = "return"
+                rec["result"] = dump_array(r2) if isinstance(r2, numpy.ndarray) else {"kind": "other", "repr": repr(r2)[:200], "type": type(r2).__name__}
+            except Exception as e:  # noqa
+                rec["outcome"] = "raise"
+                rec["exc_class"] = type(e).__name__
+                rec["exc_msg"] = str(e)[:300]
+        out["reordered"] = rec
+        out["result_after_reorder"] = dump_array(res) if isinstance(res, numpy.ndarray) else None
     out["inputs_after"] = {n: [dump_array(s._arr) for s in ss] for n, ss in stubs.items()}
     out["inputs_before"] = originals
     out["reads"] = {n: [s.reads for s in ss] for n, ss in stubs.items()}
